@@ -216,3 +216,43 @@ mut("c17-form-timeout-from-issue", "C17", EZ,
     "            async with asyncio_timeout(NETWORK_OPS_TIMEOUT):\n                v = await self._command(\"formNetwork\", parameters=parameters)\n\n                if t.sl_Status.from_ember_status(v[0]) != t.sl_Status.OK:\n                    raise zigpy.exceptions.FormationFailure(f\"Failure forming network: {v}\")\n\n                await stack_status")
 mut("c06-stale-awaiting-entry", "C06", PROTO,
     "                if seq in self._awaiting and self._awaiting[seq][2] is future:\n                    del self._awaiting[seq]", "                pass", checks=["C06", "C17"])
+
+# ---- C10 / C11 ---------------------------------------------------------------------------
+UART = "bellows/uart.py"
+mut("c10-d7-reset-future-unguarded", "C10", UART,
+    "            if not self._reset_future.done():\n                self._reset_future.set_exception(reason)", "            self._reset_future.set_exception(reason)",
+    checks=["C10", "C11"])
+mut("c10-d7-startup-future-unguarded", "C11", UART,
+    "        if self._startup_reset_future and not self._startup_reset_future.done():", "        if self._startup_reset_future:", checks=["C11", "C10"])
+mut("c10-no-close-in-failed-state", "C10", EZ,
+    "            LOGGER.error(\"NCP entered failed state. Requesting APP controller restart\")\n            self.close()\n",
+    "            LOGGER.error(\"NCP entered failed state. Requesting APP controller restart\")\n")
+mut("c10-closed-transport-gate-removed", "C10", ASH,
+    "        if self._transport is None or self._transport.is_closing():\n            raise NcpFailure(\"Transport is closed, cannot send frame\")\n",
+    "        if self._transport is None:\n            raise NcpFailure(\"Transport is closed, cannot send frame\")\n")
+mut("c10-needs-two-app-callbacks", "C10", EZ, "        if len(self._callbacks) > 1:", "        if len(self._callbacks) > 2:")
+mut("c10-connection-loss-not-forwarded", "C10", UART,
+    "        LOGGER.error(\"Lost serial connection: %r\", exc)\n        self._application.connection_lost(exc)", "        LOGGER.error(\"Lost serial connection: %r\", exc)")
+mut("c10-error-frame-not-reported", "C10", ASH,
+    "        # Cancel all pending requests\n        self._enter_failed_state(self._ncp_reset_code)", "        # Cancel all pending requests\n        self._cancel_pending_data_frames(NcpFailure(code=self._ncp_reset_code))")
+mut("c10-eof-ignored", "C10", UART,
+    "        self.connection_lost(ConnectionResetError(\"Remote server closed connection\"))", "        pass")
+mut("c10-nonsoftware-rstack-completes-reset", "C11", UART,
+    "        if code is not t.NcpResetCode.RESET_SOFTWARE:\n            self._application.enter_failed_state(code)\n            return\n", "", checks=["C11", "C10"])
+mut("c10-ash-timeout-exhaustion-silent", "C10", ASH,
+    "        self._ncp_state = NcpState.FAILED\n        self._cancel_pending_data_frames(NcpFailure(code=reset_code))\n        self._ezsp_protocol.reset_received(reset_code)",
+    "        self._ncp_state = NcpState.FAILED\n        self._cancel_pending_data_frames(NcpFailure(code=reset_code))", checks=["C10", "C05"])
+mut("c11-reset-without-cancel-prefix", "C11", ASH, "        self._write_frame(RstFrame(), prefix=(Reserved.CANCEL,))", "        self._write_frame(RstFrame())", checks=["C11", "C09"])
+mut("c11-reset-timeout-not-applied", "C11", UART,
+    "        async with asyncio_timeout(RESET_TIMEOUT):\n            return await self._reset_future", "        return await self._reset_future", checks=["C11", "C10"])
+mut("c11-waiters-not-released-on-loss", "C11", UART,
+    "        if self._reset_future:\n            if not self._reset_future.done():\n                self._reset_future.set_exception(reason)\n            self._reset_future = None\n", "")
+mut("c11-rstack-does-not-restart-tx-numbering", "C11", ASH, "        self._tx_seq = 0\n        self._rx_seq = 0\n", "        self._rx_seq = 0\n", checks=["C11", "C05"])
+
+# ---- C09 -------------------------------------------------------------------------------
+mut("c09-no-fallback-to-v4-on-reset", "C09", EZ, "        self._switch_protocol_version(v4.EZSPv4.VERSION)\n        self.start_ezsp()", "        self.start_ezsp()")
+mut("c09-second-version-query-skipped", "C09", EZ, "            self._switch_protocol_version(ver)\n            await self._command(\"version\", desiredProtocolVersion=ver)", "            self._switch_protocol_version(ver)")
+mut("c09-newer-version-keyerror", "C09", EZ, "        for cfg in DEFAULT_CONFIG[self._protocol.VERSION]:", "        for cfg in DEFAULT_CONFIG[self._ezsp_version]:")
+mut("c09-unknown-version-falls-back-to-v8", "C09", EZ, "            version = EZSP_LATEST\n", "            version = 8\n")
+mut("c09-version-kept-as-latest", "C09", EZ, "        self._ezsp_version = version\n\n        if version not in self._BY_VERSION:", "        self._ezsp_version = min(version, EZSP_LATEST)\n\n        if version not in self._BY_VERSION:")
+mut("c09-socket-reset-seen-still-resets-without-start", "C09", EZ, "                LOGGER.debug(\"Received a reset on startup, not resetting again\")\n                self.start_ezsp()", "                LOGGER.debug(\"Received a reset on startup, not resetting again\")")
